@@ -18,22 +18,24 @@ LEVEL_TEXT = (
     "Lean theorems about a crash-faithful model of visit() as the iterative stack machine it is (stack, idx, keys, "
     "edits, path, ancestors, in_array) and of ParallelVisitor (skipping array), for all trees, all visitor_keys maps "
     "and all state-passing visitors, no size bound. visit_no_crash: no sequence of idle/skip/break/remove/replace "
-    "decisions on enter or leave - root included - makes any iteration raise (loop invariant incl. applicability of "
-    "pending edits). For visitors that never edit: visit_eq_spec_partial (the machine makes exactly the calls of the "
-    "documented recursive contract Spec.specVisit - enter, children in key order, leave, with node/key/parent/path/"
-    "ancestors, cut by skip/break - in exactly the contract's number of loop iterations), spec_defined, identity (the "
-    "identical root object comes back), visit_fuel_bound (<= 2*size iterations), parallel_alone (each member of a "
-    "ParallelVisitor ends in the state it reaches alone, under any skip/break of the others). keys_complete: the table "
-    "of node classes regenerated from ast.py on every run lists exactly the node-valued fields in QUERY_DOCUMENT_KEYS "
-    "(decide). Edit semantics (rebuilt nodes, removed/replaced children) are stated in full (visit_eq_spec_full) and "
-    "tied to the implementation by the correspondence run against the Lean contract, not proved."
+    "decisions on enter or leave - root included - makes any iteration raise. visit_eq_spec / edit_semantics (full, "
+    "every visitor, editing included): wherever the documented recursive contract Spec.specVisit is defined, the "
+    "machine makes exactly its calls (enter, children in key order, leave, with node/key/parent/path/ancestors; "
+    "replacement on enter traversed instead of the original and handed to leave; rebuilt copies handed to leave), "
+    "in exactly the contract's number of loop iterations, and returns the documented value (removed list items gone "
+    "via the index offset of the edit list, removed single children absent, replaced children replaced, removed root "
+    "None, only nodes) - the per-level edit lists are proved to apply to exactly the contract's rebuilt tuples/nodes. "
+    "For visitors that never edit additionally: spec_defined, identity (the identical root object), visit_fuel_bound "
+    "(<= 2*size iterations), parallel_alone / parallel_singleton (each member of a ParallelVisitor ends in the state "
+    "it reaches alone, under any skip/break of the others). keys_complete: the table of node classes regenerated from "
+    "ast.py on every run lists exactly the node-valued fields in QUERY_DOCUMENT_KEYS (decide)."
 )
 LEVEL_NOTE = (
     "Trusted: Lean kernel; hand-written model Gql/Syntax/Visitor.lean (tied to visitor.py by the differential run: "
     "call logs with key/parent/path/ancestors, result trees with object identities, raise/no raise), harness. "
-    "Proved: no-crash for all visitors; contract refinement, identity, iteration bound, parallel independence for "
-    "non-editing visitors. Partial: result-tree semantics of editing visitors (statement + differential evidence "
-    "against the contract on every generated case, exhaustive for <= 3 decisions on trees <= 6 nodes in the thorough tier)."
+    "All listed theorems are proved in full. Outside the statement by nature: the value returned when BREAK follows an "
+    "edit (undocumented; compared against the model only), visitors returning non-node values, non-termination of "
+    "visitors that keep replacing nodes by deeper ones (the contract is then undefined, as is visit())."
 )
 TECHNIQUE = "interactive proof (Lean 4) over an executable model + differential correspondence + spec oracle"
 TRUSTED = [
@@ -53,8 +55,8 @@ ASSUMPTIONS = [
     "parsed documents (start offsets) by an oracle, not proved",
 ]
 EXPLANATION = (
-    "Theorems: visit_no_crash (all visitors), visit_eq_spec_partial / spec_defined / identity / visit_fuel_bound for "
-    "non-editing visitors, parallel_alone, keys_complete (generated table). Correspondence: model vs visit() on parsed "
+    "Theorems: visit_no_crash and visit_eq_spec / edit_semantics (all visitors, editing included), spec_defined / "
+    "identity / visit_fuel_bound / parallel_alone for non-editing visitors, keys_complete (generated table). Correspondence: model vs visit() on parsed "
     "documents over all node kinds, programmatic trees and scripted (also parallel) visitors; oracles on the "
     "implementation: Spec.specVisit through the driver (calls, result), input unchanged, identity, reachability of every "
     "node, source order, parallel member vs alone."
@@ -663,7 +665,7 @@ def explore(ctx) -> Report:
         # quick: all single decisions, and a seeded 15% of the pairs
         ex = [c for c in ex if sum(len(m) for m in c["members"]) <= 1 or rng.random() < 0.15]
     cases += ex
-    n_random = 1500 if quick else 40000
+    n_random = 1500 if quick else 30000
     if ctx.escalate:
         n_random *= 2
     cases += gen_cases(rng, n_random, classes)
